@@ -49,6 +49,7 @@ ProveOK(e) ==
      /\ e.pk = ys
      /\ e.pi = EncodePoint(G) \o c16 \o ToBytes(s, 32)
      /\ e.beta = Beta(tab, G)
+     /\ e.tailok                      \* nothing was written past the key / alpha slices handed to Prove
 
 \* RFC 9381 5.3 with validate_key; <<accept, beta>>
 VerifySpec(e) ==
@@ -87,6 +88,7 @@ VerifyOK(e) ==
 EventOK(e) ==
   CASE e.op = "vrfprove" -> ProveOK(e)
     [] e.op = "vrfverify" -> VerifyOK(e)
+    [] e.op = "vrfp2h" -> e.p2hok = P2HSpec(e)[1]          \* proof decoder alone: canonical Gamma and s < L
     [] OTHER -> FALSE
 
 VARIABLE l
